@@ -84,7 +84,21 @@ let stmt_str (q : sqlstmt) : ostring =
   ^ "|" ^ String.concat "," (List.map (function KOrderBy d -> "ob:created_at:" ^ (if d then "desc" else "asc") | KLimit -> "lim" | KOffset -> "off") q.q_tail)
   ^ "|" ^ String.concat "," (List.map sz q.q_args)
 
-let sq_model (a : ostring list) : ostring list =
+(* RF.<read op>: the read's result set breaks while it is streamed; every read then answers with an error and changes nothing *)
+let is_rf (op : ostring) = String.length op > 3 && String.sub op 0 3 = "RF."
+let rec sq_model (a : ostring list) : ostring list =
+  if List.exists is_rf a then begin
+    let plain = List.filter (fun op -> not (is_rf op)) a in
+    let r = sq_model plain in
+    let (body, tail) = (let n = List.length plain in (List.filteri (fun i _ -> i < n) r, List.filteri (fun i _ -> i >= n) r)) in
+    let rec weave ops outs = (match ops, outs with
+      | op :: t, _ when is_rf op -> "err" :: weave t outs
+      | _ :: t, o :: ot -> o :: weave t ot
+      | [], _ -> []
+      | _ :: _, [] -> failwith "sq_model weave") in
+    weave a body @ tail
+  end else sq_model_plain a
+and sq_model_plain (a : ostring list) : ostring list =
   sql_crosscheck a;
   with_created := false;
   let r = (try ms_model a with e -> with_created := true; raise e) in
